@@ -18,24 +18,26 @@ theorem init_litState (t : List Char) : LitState t [] (IState.init (escapeAll t)
 
 /-- **C09.inline_literal** -/
 theorem inline_literal (mid post : List IRule) (hmid : ∀ m ∈ mid, DeclinesAtBackslash m)
-    (posts : List (IState → IState)) (hposts : ∀ f ∈ posts, ∀ s : IState, s.delims = 0 → f s = s)
+    (posts : List (IState → IState)) (hposts : ∀ f ∈ posts, ∀ s : IState, s.delims = 0 → s.delimiters = [] → s.metas = [] → f s = s)
     (mn : Int) (hmn : 1 ≤ mn) (t : List Char) (hlf : '\n' ∉ t) (hne : t ≠ []) :
     ∃ ts tk, inlineParse (ruleText :: (mid ++ ruleEscape :: post)) posts true mn (escapeAll t) = .ok ts
       ∧ joinToks [] ts = [tk] ∧ tk.type = "text" ∧ tk.content.toList = t ∧ IsLit tk := by
   have hinit := init_litState t
-  obtain ⟨s', hloop, hs'⟩ := loop_literal mid post hmid mn hmn t hlf t.length t [] (IState.init (escapeAll t))
+  obtain ⟨s', hloop, hs', hdl', hmt'⟩ := loop_literal mid post hmid mn hmn t hlf t.length t [] (IState.init (escapeAll t))
     ((IState.init (escapeAll t)).posMax - (IState.init (escapeAll t)).pos + 1) false (Nat.le_refl _) (by simp) hinit (by omega)
+  have hdl : s'.delimiters = [] := hdl'
+  have hmt : s'.metas = [] := hmt'
   -- flush of the pending text
   have hflush : ∃ s2, tokenize (ruleText :: (mid ++ ruleEscape :: post)) mn (IState.init (escapeAll t)) = .ok s2
-      ∧ (∀ x ∈ s2.tokens, IsLit x) ∧ litContents s2.tokens = t ∧ s2.delims = 0 := by
+      ∧ (∀ x ∈ s2.tokens, IsLit x) ∧ litContents s2.tokens = t ∧ s2.delims = 0 ∧ s2.delimiters = [] ∧ s2.metas = [] := by
     unfold tokenize
     rw [hloop]
     by_cases hp : s'.pending.isEmpty = true
     · have hpe : s'.pending = [] := by simpa using hp
-      refine ⟨s', by simp [hp], hs'.lit, ?_, hs'.delims⟩
+      refine ⟨s', by simp [hp], hs'.lit, ?_, hs'.delims, hdl, hmt⟩
       have := hs'.contents; rw [hpe, List.append_nil] at this; exact this
     · have hp' : s'.pending.isEmpty = false := by simpa using hp
-      refine ⟨s'.pushPending, by simp [hp'], ?_, ?_, hs'.delims⟩
+      refine ⟨s'.pushPending, by simp [hp'], ?_, ?_, hs'.delims, hdl, hmt⟩
       · intro x hx
         simp only [IState.pushPending, List.mem_append, List.mem_singleton] at hx
         rcases hx with hx | rfl
@@ -44,9 +46,9 @@ theorem inline_literal (mid post : List IRule) (hmid : ∀ m ∈ mid, DeclinesAt
       · have := hs'.contents
         simp [IState.pushPending, litContents, List.flatMap_append, mkInlineTok, Tok.content] at this ⊢
         exact this
-  obtain ⟨s2, htok, hlit, hcont, hdel⟩ := hflush
+  obtain ⟨s2, htok, hlit, hcont, hdel, hdl2, hmt2⟩ := hflush
   -- the rules2 chain before fragments_join has nothing to do
-  have hfold : ∀ (l : List (IState → IState)), (∀ f ∈ l, ∀ s : IState, s.delims = 0 → f s = s) →
+  have hfold : ∀ (l : List (IState → IState)), (∀ f ∈ l, ∀ s : IState, s.delims = 0 → s.delimiters = [] → s.metas = [] → f s = s) →
       l.foldl (fun acc f => f acc) s2 = s2 := by
     intro l
     induction l with
@@ -54,7 +56,7 @@ theorem inline_literal (mid post : List IRule) (hmid : ∀ m ∈ mid, DeclinesAt
     | cons f fs ih =>
       intro h
       simp only [List.foldl_cons]
-      rw [h f (by simp) s2 hdel]
+      rw [h f (by simp) s2 hdel hdl2 hmt2]
       exact ih (fun g hg => h g (by simp [hg]))
   have hfj := fragmentsJoin_lit s2.tokens hlit
   have hne2 : fragmentsJoin 0 s2.tokens ≠ [] := by
